@@ -234,7 +234,12 @@ def model_obs(answer):
     if not answer["map"]["ok"] or not answer["final"]["ok"]:
         return dict(ok=False)
     final = dict(atoms=answer["final"]["atoms"], ixns=answer["final"]["ixns"], nrexcl=answer["map"]["nrexcl"])
-    atoms, sections = real.itp_expectation(final, SECT_ARITY)
+    try:
+        atoms, sections = real.itp_expectation(final, SECT_ARITY)
+    except (KeyError, IndexError) as err:
+        # the link operations recorded from the real run do not fit the molecule the model built from the files (an
+        # interaction on an atom the model does not have): model and code no longer talk about the same input
+        return dict(ok=False, inconsistent="%s: %s" % (type(err).__name__, err))
     return dict(ok=True, nrexcl=final["nrexcl"], atoms=atoms, sections=sections)
 
 
